@@ -1,31 +1,43 @@
 import TrippyVerif.Gen.PktDispatch
+import TrippyVerif.Model.StrategyIO
+import TrippyVerif.Model.Checksum
 /-
 Line-protocol driver: one request per input line, one answer per output line.
 The Rust harness (`/verif/harness`, binary `tvh`) runs the real trippy code on the same
 requests; `/verif/check` diffs the two answer streams.
 
   pkt <type> <fn> <hexbuf> <arg>      a generated packet accessor (C12, C04)
+  cksum <fn> <hexdata> <hexsrc> <hexdst>   the six checksum entry points (C13)
+  st cfg … / st it …                  the tracing state machine (stateful; C03 C06 C07 C08 C09)
 -/
 open TV
 
-def handle (line : String) : String :=
+structure DState where
+  st : Strat.DSt := {}
+
+def step (d : DState) (line : String) : DState × String :=
   match line.trimAscii.toString.splitOn " " with
   | ["pkt", ns, fn, hb, arg] =>
     match bytesOfHex hb with
-    | none => "bad-op"
+    | none => (d, "bad-op")
     | some b =>
       match Pkt.dispatch ns fn b arg with
-      | some s => s
-      | none => "bad-op"
-  | _ => "bad-op"
+      | some s => (d, s)
+      | none => (d, "bad-op")
+  | "cksum" :: rest => (d, (Cksum.handle rest).getD "bad-op")
+  | "st" :: args =>
+    let (s', out) := Strat.stepLine d.st args
+    ({ d with st := s' }, out)
+  | _ => (d, "bad-op")
 
-partial def loop (h : IO.FS.Stream) (out : IO.FS.Stream) : IO Unit := do
+partial def loop (h : IO.FS.Stream) (out : IO.FS.Stream) (d : DState) : IO Unit := do
   let line ← h.getLine
   if line.isEmpty then return ()
-  out.putStrLn (handle line)
-  loop h out
+  let (d', s) := step d line
+  out.putStrLn s
+  loop h out d'
 
 def main : IO Unit := do
   let stdin ← IO.getStdin
   let stdout ← IO.getStdout
-  loop stdin stdout
+  loop stdin stdout {}
